@@ -194,7 +194,13 @@ std::string run(const Args& a) {
 				std::set<NiObject*> before;
 				for (uint32_t i = 0; i < hdr.GetNumBlocks(); ++i)
 					before.insert(hdr.GetBlock<NiObject>(i));
-				hdr.DeleteBlockByType(f[1], f[2] == "1");
+				// the type name may itself contain "::" (BSSkin::BoneData): everything between the first and the last field
+				std::string ty = f[1];
+				for (size_t k = 2; k + 1 < f.size(); ++k)
+					ty += ":" + f[k];
+				for (size_t q; (q = ty.find("~~")) != std::string::npos;)
+					ty.replace(q, 2, "::");
+				hdr.DeleteBlockByType(ty, f.back() == "1");
 				for (uint32_t i = 0; i < hdr.GetNumBlocks(); ++i)
 					before.erase(hdr.GetBlock<NiObject>(i));
 				for (auto p : before)
